@@ -330,7 +330,7 @@ fn fuzz_case<G: CurveTag>(bytes: &[u8], col: &mut Collector) -> Result<(), Failu
     let g = [0usize, 1, 2, 3, 4, 5, 8][ch.below(7)];
     let g2 = if g >= 2 && ch.chance(64) { 1 } else { 0 };
     let fx = fixture::<G>(g, g2);
-    let kind = ch.weighted(&[40, 25, 35]);
+    let kind = ch.weighted(&[36, 22, 30, 12]);
     let (input, label): (Vec<u8>, &str) = match kind {
         // structurally arbitrary proof object
         0 => {
@@ -369,6 +369,25 @@ fn fuzz_case<G: CurveTag>(bytes: &[u8], col: &mut Collector) -> Result<(), Failu
             let n = ch.below(700);
             (ch.bytes(n), "raw")
         }
+        // the uncompressed form of a valid proof with coordinate bytes changed: the unchecked
+        // decoders turn it into objects whose points are not on the curve
+        3 => {
+            use ark_serialize::CanonicalSerialize;
+            let mut b = vec![];
+            fx.proof.serialize_uncompressed(&mut b).unwrap();
+            let nm = 1 + ch.below(3);
+            for _ in 0..nm {
+                let i = ch.below(b.len().max(1));
+                if i < b.len() {
+                    match ch.below(3) {
+                        0 => b[i] ^= 1 << ch.below(8),
+                        1 => b[i] = b[i].wrapping_add(1),
+                        _ => b[i] = 0,
+                    }
+                }
+            }
+            (b, "mutated-uncompressed-encoding")
+        }
         // mutated fixture encoding
         _ => {
             let mut b = fx.bytes.clone();
@@ -395,10 +414,15 @@ fn fuzz_case<G: CurveTag>(bytes: &[u8], col: &mut Collector) -> Result<(), Failu
                         let pt = G::PT;
                         let k = fx.mirror.ipp.L.len();
                         let off = if ch.chance(128) { 11 * pt + 3 * G::SC } else { 11 * pt + 3 * G::SC + 8 + k * pt };
-                        let val: u64 = match ch.below(6) {
+                        let val: u64 = match ch.below(9) {
                             0 => u64::MAX,
                             1 => 1 << 60,
                             2 => 1 << 32,
+                            // the honest length (or a small one) with high bits set: right for a
+                            // decoder that narrows the count
+                            6 => k as u64 | 1 << 60,
+                            7 => k as u64 | 1 << 32,
+                            8 => ch.below(12) as u64 | 1 << (33 + ch.below(30)),
                             3 => 31 + ch.below(3) as u64,
                             4 => ch.below(12) as u64,
                             _ => (b.len() as u64) / pt as u64 + ch.below(3) as u64,
@@ -425,7 +449,7 @@ fn fuzz_case<G: CurveTag>(bytes: &[u8], col: &mut Collector) -> Result<(), Failu
         }
     };
     let what = || json!({"kind": label, "gates": [g - g2, g2], "curve": G::CURVE.name(), "input_hex": hex::encode(&input[..input.len().min(4096)])});
-    let (decoded, verdict) = judge::<G>(&fx, &input, &[0, 1, 2], input.len() % 2 == 0 || kind == 0, &what)?;
+    let (decoded, verdict) = judge::<G>(&fx, &input, &[0, 1, 2], input.len() % 2 == 0 || kind == 0 || kind == 3, &what)?;
     col.class(&format!("{}:{}", label, if decoded { "decodes" } else { "format-error" }));
     if decoded {
         col.nontrivial(fp_of(&input));
